@@ -10,13 +10,16 @@
   parameter updates, scalar re-wirings, array add/remove and reads of arbitrary nodes (rejected
   calls included; they leave the state alone) that keeps the graph acyclic (`Valid F g0 ops`; like
   the Go API the model has no cycle check, and a cycle makes `Outdated()` recurse forever).
-  GUARD ON PROCESSORS (`ReadsAll g0`): every `Process()` pulls ALL its wired inputs.  The model can
-  express processors that skip inputs (`SNode.reads`); for them the "recompute only on change"
-  clause is FALSE of the code and of the model alike (`skipping_processor_spurious`,
-  `no_spurious_full_false`; known finding C11-skipping-processor), so the hypothesis is not a
-  technicality.  For the freshness theorems it is a limitation of the proof (the invariant used
-  needs an executed node to end up `Processed`); freshness of skipping processors is checked on
-  the implementation by the oracle `c11.holds.fresh`, not proved.
+  PROCESSORS MAY SKIP INPUTS (`SNode.reads`; `fn` gets `none` for an input it did not pull, and the
+  from-scratch evaluation `Spec` skips the same inputs).  Freshness (`read_fresh`,
+  `processed_is_fresh`), the frame, "executes only if outdated", `exec_only_if_changed` and the
+  version accounting are proved for EVERY processor.  The guard `ReadsAll g0` (every `Process()`
+  pulls all its wired inputs) is a hypothesis ONLY of the theorems that need a node to be
+  `Processed` right after it executed: `reads_idempotent`, `executed_then_processed`,
+  `reexecution_needs_change`.  For a processor that skips a stale struct input they are FALSE of
+  the code and of the model alike (`skipping_processor_spurious`, `no_spurious_full_false`; known
+  finding C11-skipping-processor): the unread dependency stays `Stale`, `Outdated()` stays true,
+  the node re-executes on every read (its value stays right).
   `valid_fixed_numbering`: histories in which every new connection goes to a node of smaller rank
   in one fixed ranking (e.g. smaller id) are valid.
 -/
@@ -28,9 +31,9 @@ open Nodes
 variable {V : Type} {F : Nat}
 
 /-- the ghost-free inductive invariant (I1 ∧ I2 ∧ guard) holds in every reachable state -/
-theorem reachable_inv (g0 : Graph V) (h0 : Init F g0) (hra : ReadsAll g0) (ops : List (Op V)) (hv : Valid F g0 ops) :
+theorem reachable_inv (g0 : Graph V) (h0 : Init F g0) (ops : List (Op V)) (hv : Valid F g0 ops) :
     Inv F (run F g0 ops).1 :=
-  run_inv (h0.inv hra) ops hv
+  run_inv h0.inv ops hv
 
 /-- `Spec` is evaluation from scratch: it satisfies (and, the dependency relation being
     well-founded, is determined by) the recursive equation that mentions only parameter values,
@@ -38,9 +41,15 @@ theorem reachable_inv (g0 : Graph V) (h0 : Init F g0) (hra : ReadsAll g0) (ops :
 theorem spec_is_from_scratch (g : Graph V) (hac : Acyclic F g) (i : Nat) :
     Spec F g i = match g i with
       | .param x _ => x
-      | .struct s => s.fn s.scalars s.arrays (s.deps.map (Spec F g)) := by
+      | .struct s => s.fn s.scalars s.arrays (specPull (Spec F g) s.reads s.deps []) := by
   obtain ⟨rank, hwf⟩ := hac
   exact Spec_eq g hwf i
+
+/-- for a processor that reads all its inputs the entries are the from-scratch values of all
+    dependencies -/
+theorem spec_reads_all (ev : Nat → V) (ds : List Nat) :
+    specPull ev (fun _ => true) ds [] = ds.map (fun d => some (ev d)) := by
+  simpa using specPull_all ev ds []
 
 /-- likewise `Outdated` is `Struct.Outdated()`: the fuel never runs out on an acyclic graph -/
 theorem outdated_is_outdated (g : Graph V) (hac : Acyclic F g) (i : Nat) :
@@ -73,111 +82,122 @@ theorem valid_fixed_numbering (rank : Nat → Nat) (g0 : Graph V) (hwf : Ranked 
     (hops : ∀ op ∈ ops, opRanked rank op) : Valid F g0 ops :=
   (valid_of_fixed_rank hwf ops hops).1
 
-/-- **never stale**: after any history, `Value()` of any node returns the from-scratch value of
-    the current graph (guard `ReadsAll` here is a limitation of the proof, not of the code: for
-    processors that skip inputs freshness is checked on the implementation, see the header) -/
-theorem read_fresh (g0 : Graph V) (h0 : Init F g0) (hra : ReadsAll g0) (ops : List (Op V)) (hv : Valid F g0 ops) (i : Nat) :
+/-- **never stale**, for EVERY processor (skipping ones included; no `ReadsAll`): after any history,
+    the value `Value()` of any node returns is the from-scratch value of the current graph.  The
+    statement is about the value returned by the read (which executes the node when it is
+    outdated), not about the node being `Processed` afterwards — a skipping processor may be
+    outdated again at once -/
+theorem read_fresh (g0 : Graph V) (h0 : Init F g0) (ops : List (Op V)) (hv : Valid F g0 ops) (i : Nat) :
     val (step F (run F g0 ops).1 (.read i)).1 i = Spec F (run F g0 ops).1 i := by
-  have hinv := run_inv (h0.inv hra) ops hv
-  obtain ⟨rank, hwf⟩ := hinv.wf
+  have hinv := run_inv h0.inv ops hv
   rw [step_read]
-  have hok := Eval_ok i _ hinv
-  rw [val_eq_spec hok.inv hok.fresh, Spec_static hwf hok.evo.static]
+  exact (Eval_ok i _ hinv).value
 
 /-- in every reachable state, every node that reports `Processed` holds the from-scratch value
-    (so a read that does not execute is fresh as well) -/
-theorem processed_is_fresh (g0 : Graph V) (h0 : Init F g0) (hra : ReadsAll g0) (ops : List (Op V)) (hv : Valid F g0 ops) (j : Nat)
+    (so a read that does not execute is fresh as well) — for every processor -/
+theorem processed_is_fresh (g0 : Graph V) (h0 : Init F g0) (ops : List (Op V)) (hv : Valid F g0 ops) (j : Nat)
     (hj : Outdated F (run F g0 ops).1 j = false) : val (run F g0 ops).1 j = Spec F (run F g0 ops).1 j :=
-  val_eq_spec (run_inv (h0.inv hra) ops hv) hj
+  val_eq_spec (run_inv h0.inv ops hv) hj
 
 /-- evaluation changes no parameter, processor or wiring, only nodes that were outdated and lie in
     the cone of the node read, and executes only such nodes (I3) -/
-theorem eval_frame (g0 : Graph V) (h0 : Init F g0) (hra : ReadsAll g0) (ops : List (Op V)) (hv : Valid F g0 ops) (i : Nat) :
+theorem eval_frame (g0 : Graph V) (h0 : Init F g0) (ops : List (Op V)) (hv : Valid F g0 ops) (i : Nat) :
     SameStatic (step F (run F g0 ops).1 (.read i)).1 (run F g0 ops).1 ∧
     (∀ k, Outdated F (run F g0 ops).1 k = false → (step F (run F g0 ops).1 (.read i)).1 k = (run F g0 ops).1 k) ∧
     (∀ k, ¬ Reach (run F g0 ops).1 i k → (step F (run F g0 ops).1 (.read i)).1 k = (run F g0 ops).1 k) ∧
     (∀ e ∈ (step F (run F g0 ops).1 (.read i)).2, Reach (run F g0 ops).1 i e.1) := by
-  have hinv := run_inv (h0.inv hra) ops hv
+  have hinv := run_inv h0.inv ops hv
   rw [step_read]
   have hok := Eval_ok i _ hinv
   exact ⟨hok.evo.static, hok.evo.keep, hok.frame, hok.logCone⟩
 
 /-- **a second read executes nothing** (and changes nothing) — for processors that read all their
     wired inputs (`ReadsAll`; proved part of `C11_no_spurious_full`, which is false without it) -/
-theorem reads_idempotent (g0 : Graph V) (h0 : Init F g0) (hra : ReadsAll g0) (ops : List (Op V)) (hv : Valid F g0 ops) (i : Nat) :
+theorem reads_idempotent (g0 : Graph V) (h0 : Init F g0) (hra : ReadsAll g0) (ops : List (Op V)) (hv : Valid F g0 ops)
+    (i : Nat) :
     step F (step F (run F g0 ops).1 (.read i)).1 (.read i) = ((step F (run F g0 ops).1 (.read i)).1, []) := by
-  have hinv := run_inv (h0.inv hra) ops hv
+  have hinv := run_inv h0.inv ops hv
   rw [step_read, step_read]
   have hok := Eval_ok i _ hinv
   obtain ⟨rank', hwf'⟩ := hok.inv.wf
-  rw [Eval_eq_all _ hwf' hok.inv.readsAll]
+  rw [Eval_eq _ hwf']
   cases hs : (Eval F (run F g0 ops).1 i).1 i with
   | param x v => rfl
-  | struct s => simp [hok.fresh]
+  | struct s => simp [hok.fresh (run_readsAll hra ops)]
 
-/-- a node executes during a read only if it was outdated, and it is processed afterwards -/
-theorem exec_only_if_outdated (g0 : Graph V) (h0 : Init F g0) (hra : ReadsAll g0) (ops : List (Op V)) (hv : Valid F g0 ops) (i : Nat)
+/-- a node executes during a read only if it was outdated — for every processor -/
+theorem exec_only_if_outdated (g0 : Graph V) (h0 : Init F g0) (ops : List (Op V)) (hv : Valid F g0 ops) (i : Nat)
     (e : Nat × Nat) (he : e ∈ (step F (run F g0 ops).1 (.read i)).2) :
-    Outdated F (run F g0 ops).1 e.1 = true ∧ Outdated F (step F (run F g0 ops).1 (.read i)).1 e.1 = false := by
-  have hinv := run_inv (h0.inv hra) ops hv
-  rw [step_read] at he ⊢
-  exact ⟨(Eval_ok i _ hinv).logOut e he, executed_fresh hinv i e he⟩
+    Outdated F (run F g0 ops).1 e.1 = true := by
+  have hinv := run_inv h0.inv ops hv
+  rw [step_read] at he
+  exact (Eval_ok i _ hinv).logOut e he
 
-/-- **recompute only on change** — for processors that read all their wired inputs (`ReadsAll`;
-    proved part of `C11_no_spurious_full`): once node `j` is processed (in particular right after it
+/-- a node that executed during a read is `Processed` afterwards — for processors that read all
+    their wired inputs (`ReadsAll`); false for a processor that skipped a stale struct input -/
+theorem executed_then_processed (g0 : Graph V) (h0 : Init F g0) (hra : ReadsAll g0) (ops : List (Op V))
+    (hv : Valid F g0 ops) (i : Nat) (e : Nat × Nat) (he : e ∈ (step F (run F g0 ops).1 (.read i)).2) :
+    Outdated F (step F (run F g0 ops).1 (.read i)).1 e.1 = false := by
+  have hinv := run_inv h0.inv ops hv
+  rw [step_read] at he ⊢
+  exact executed_fresh hinv (run_readsAll hra ops) i e he
+
+/-- **recompute only on change** — for every processor: once node `j` is processed (in particular right after it
     executed), no history that neither updates a parameter in `j`'s dependency cone nor re-wires a
     node of that cone (`j` itself included) executes `j` again, whatever is read, and `j` stays
-    processed -/
-theorem exec_only_if_changed (g0 : Graph V) (h0 : Init F g0) (hra : ReadsAll g0) (ops : List (Op V)) (hv : Valid F g0 ops) (j : Nat)
+    processed.  (What a skipping processor lacks is the hypothesis: after executing it need not be
+    `Processed` — `executed_then_processed` needs `ReadsAll`.) -/
+theorem exec_only_if_changed (g0 : Graph V) (h0 : Init F g0) (ops : List (Op V)) (hv : Valid F g0 ops) (j : Nat)
     (hj : Outdated F (run F g0 ops).1 j = false) (ops2 : List (Op V)) (hv2 : Valid F (run F g0 ops).1 ops2)
     (hq : Untouched F (run F g0 ops).1 ops2 j) :
     cnt (run F (run F g0 ops).1 ops2).2 j = 0 ∧ Outdated F (run F (run F g0 ops).1 ops2).1 j = false := by
-  have := untouched_run (run_inv (h0.inv hra) ops hv) hj ops2 hv2 hq
+  have := untouched_run (run_inv h0.inv ops hv) hj ops2 hv2 hq
   exact ⟨this.2, this.1⟩
 
 /-- the same, from execution to execution, again for processors that read all their wired inputs
     (`ReadsAll`): if `j` executed in a read and the following history
     `ops2` (any reads included) does not touch `j`'s cone, `j` does not execute in `ops2` -/
-theorem reexecution_needs_change (g0 : Graph V) (h0 : Init F g0) (hra : ReadsAll g0) (ops : List (Op V)) (hv : Valid F g0 ops) (i j : Nat)
+theorem reexecution_needs_change (g0 : Graph V) (h0 : Init F g0) (hra : ReadsAll g0) (ops : List (Op V))
+    (hv : Valid F g0 ops) (i j : Nat)
     (hex : 0 < cnt (step F (run F g0 ops).1 (.read i)).2 j) (ops2 : List (Op V))
     (hv2 : Valid F (step F (run F g0 ops).1 (.read i)).1 ops2)
     (hq : Untouched F (step F (run F g0 ops).1 (.read i)).1 ops2 j) :
     cnt (run F (step F (run F g0 ops).1 (.read i)).1 ops2).2 j = 0 := by
-  have hinv := run_inv (h0.inv hra) ops hv
+  have hinv := run_inv h0.inv ops hv
   obtain ⟨e, he, hej⟩ := cnt_pos_mem hex
-  have hf := (exec_only_if_outdated g0 h0 hra ops hv i e he).2
+  have hf := executed_then_processed g0 h0 hra ops hv i e he
   rw [hej] at hf
   have hac : Acyclic F (step F (run F g0 ops).1 (.read i)).1 := step_acyclic_of_not_rewire hinv.wf _ (.inl ⟨i, rfl⟩)
   exact (untouched_run (step_inv hinv _ hac) hf ops2 hv2 hq).2
 
-/-- **version = number of executions**: along every history the version of every node grows by
+/-- **version = number of executions**, for every processor: along every history the version of every node grows by
     exactly the number of its executions in the log plus, for a parameter, the number of accepted
     updates — and by nothing else -/
-theorem version_counts_executions (g0 : Graph V) (h0 : Init F g0) (hra : ReadsAll g0) (ops : List (Op V)) (hv : Valid F g0 ops) (k : Nat) :
+theorem version_counts_executions (g0 : Graph V) (h0 : Init F g0) (ops : List (Op V)) (hv : Valid F g0 ops) (k : Nat) :
     ver (run F g0 ops).1 k = ver g0 k + cnt (run F g0 ops).2 k + setCount F g0 ops k :=
-  version_run (h0.inv hra) ops hv k
+  version_run h0.inv ops hv k
 
 /-- for a struct node the version counts its executions and nothing else -/
-theorem struct_version_counts_executions (g0 : Graph V) (h0 : Init F g0) (hra : ReadsAll g0) (ops : List (Op V)) (hv : Valid F g0 ops)
+theorem struct_version_counts_executions (g0 : Graph V) (h0 : Init F g0) (ops : List (Op V)) (hv : Valid F g0 ops)
     (k : Nat) (s : SNode V) (hk : g0 k = .struct s) :
     ver (run F g0 ops).1 k = s.version + cnt (run F g0 ops).2 k := by
-  rw [version_run (h0.inv hra) ops hv k, setCount_struct g0 ops k (by simp [hk, isParam])]
+  rw [version_run h0.inv ops hv k, setCount_struct g0 ops k (by simp [hk, isParam])]
   simp [ver, hk]
 
 /-- one step: +1 per execution, +1 for an accepted `Set` of that parameter, otherwise unchanged -/
-theorem version_step_exact (g0 : Graph V) (h0 : Init F g0) (hra : ReadsAll g0) (ops : List (Op V)) (hv : Valid F g0 ops) (op : Op V)
+theorem version_step_exact (g0 : Graph V) (h0 : Init F g0) (ops : List (Op V)) (hv : Valid F g0 ops) (op : Op V)
     (k : Nat) :
     ver (step F (run F g0 ops).1 op).1 k
       = ver (run F g0 ops).1 k + cnt (step F (run F g0 ops).1 op).2 k + bumps (run F g0 ops).1 op k :=
-  version_step (run_inv (h0.inv hra) ops hv) op k
+  version_step (run_inv h0.inv ops hv) op k
 
 /-- the index `sn.depVersions[i]` in `Outdated()` never panics: whenever the flag is clear the
     remembered list has one entry per dependency (and each is `≤` the dependency's version) -/
-theorem remembered_length (g0 : Graph V) (h0 : Init F g0) (hra : ReadsAll g0) (ops : List (Op V)) (hv : Valid F g0 ops) (i : Nat)
+theorem remembered_length (g0 : Graph V) (h0 : Init F g0) (ops : List (Op V)) (hv : Valid F g0 ops) (i : Nat)
     (s : SNode V) (rv : List Nat) (hs : (run F g0 ops).1 i = .struct s) (hr : s.remembered = some rv)
     (hf : s.flag = false) :
     rv.length = s.deps.length ∧ All2 (fun d r => r ≤ ver (run F g0 ops).1 d) s.deps rv := by
-  have h := (run_inv (h0.inv hra) ops hv).rem i s rv hs hr hf
+  have h := (run_inv h0.inv ops hv).rem i s rv hs hr hf
   exact ⟨h.length_eq.symm, h⟩
 
 /-- the executable cone used by the driver's `no_spurious` oracle is the cone `Reach` of the theorems -/
@@ -245,13 +265,14 @@ def skipG : Graph Nat := fun i =>
   match i with
   | 0 => .param 0 0
   | 1 => .param 7 0
-  | 2 => .struct { fn := fun _ _ vs => vs.foldl (· + ·) 1, scalars := [some 1], arrays := [], cache := 0,
+  | 2 => .struct { fn := fun _ _ vs => vs.foldl (fun a o => a + o.getD 0) 1, scalars := [some 1], arrays := [], cache := 0,
                    version := 0, remembered := none, flag := false }
   | 3 => .struct { fn := fun _ _ vs => match vs with
-                            | [x, y] => if x > 0 then x + y + 1 else x + 1
+                            | [some x, some y] => x + y + 1
+                            | [some x, none] => x + 1
                             | _ => 0,
                    reads := fun acc => match acc with
-                            | [x] => decide (x > 0)
+                            | [some x] => decide (x > 0)
                             | _ => true,
                    scalars := [some 0, some 2], arrays := [], cache := 0,
                    version := 0, remembered := none, flag := false }
@@ -299,12 +320,24 @@ theorem no_spurious_full_false : ¬ C11_no_spurious_full := by
   revert h1
   decide
 
+/-- … while freshness and version accounting hold for it as for any processor: `read_fresh` and
+    `version_counts_executions` apply to `skipG` (no `ReadsAll` in their hypotheses) -/
+example (ops : List (Op Nat)) (hops : ∀ op ∈ ops, (∃ i, op = .read i) ∨ ∃ p v, op = .setParam p v) :
+    val (step 4 (run 4 skipG ops).1 (.read 3)).1 3 = Spec 4 (run 4 skipG ops).1 3 ∧
+    ver (run 4 skipG ops).1 3 = ver skipG 3 + cnt (run 4 skipG ops).2 3 + setCount 4 skipG ops 3 := by
+  obtain ⟨rank, hr⟩ := skipG_init.1
+  have hv : Valid 4 skipG ops := (valid_of_fixed_rank hr ops (by
+    intro op hop
+    rcases hops op hop with ⟨i, rfl⟩ | ⟨p, v, rfl⟩ <;> trivial)).1
+  exact ⟨read_fresh skipG skipG_init ops hv 3, version_counts_executions skipG skipG_init ops hv 3⟩
+
 /-- with X > 0 the same processor behaves: the second read executes nothing -/
 example : (run 4 skipG [.setParam 0 5, .read 3, .read 3]).2 = [(2, 1), (3, 1)] := by decide
 
 /-! ### non-vacuity: a diamond over two parameters with a shared node and an array port -/
 
-def sum3 : List (Option Nat) → List (List Nat) → List Nat → Nat := fun _ _ vs => vs.foldl (· + ·) 1
+def sum3 : List (Option Nat) → List (List Nat) → List (Option Nat) → Nat :=
+  fun _ _ vs => vs.foldl (fun a o => a + o.getD 0) 1
 
 def mk (sc : List (Option Nat)) (ar : List (List Nat)) : Node Nat :=
   .struct { fn := sum3, scalars := sc, arrays := ar, cache := 0, version := 0, remembered := none, flag := false }
@@ -369,7 +402,7 @@ theorem history_valid : Valid 5 diamond history := by
   rcases hop with rfl | rfl | rfl | rfl | rfl | rfl | rfl | rfl <;> simp [opRanked, rk]
 
 example : val (step 5 (run 5 diamond history).1 (.read 4)).1 4 = Spec 5 (run 5 diamond history).1 4 :=
-  read_fresh diamond diamond_init diamond_readsAll history history_valid 4
+  read_fresh diamond diamond_init history history_valid 4
 
 example : (run 5 diamond history).2 = [(2, 1), (3, 1), (4, 1), (2, 2), (3, 2), (3, 3), (4, 2), (4, 3)] := by decide
 
